@@ -1,6 +1,7 @@
 /- `scan` request: the container model run with the oracle answers recorded from the implementation. -/
 import Preflate.Driver.Wire
 import Preflate.Model.Container
+import Preflate.Model.IO
 namespace Preflate.Driver
 open Preflate
 
@@ -53,5 +54,27 @@ def scanLine (f : List UInt8) (entries : List String) : String :=
           | .error (.panic _) => "panic"
           | .error _ => "err"
         s!"ok {c.length} {fnvNats c} {back}"
+
+def parseSched (t : String) : Option (List IoEv) :=
+  if t == "-" then some [] else
+  (t.splitOn ",").mapM fun x =>
+    if x == "i" then some IoEv.interrupted
+    else if x == "e" then some IoEv.error
+    else if x == "z" then some IoEv.zero
+    else if x.startsWith "s" then (x.drop 1).toNat?.map IoEv.short
+    else none
+
+def recreateIoLine (c : List UInt8) (rs ws : String) (entries : List String) : String :=
+  match entries.mapM parseEntry, parseSched rs, parseSched ws with
+  | some tape, some rs, some ws =>
+      let o := tapeOracle tape
+      let (res, _, k) := recreateIO o crc32 ⟨toNats c, rs⟩ ⟨[], ws⟩
+      let word := match res with
+        | .ok () => "ok"
+        | .error (.panic _) => "panic"
+        | .error .fuel => "fuel"
+        | .error .err => "err"
+      s!"{word} {k.out.length} {fnvNats k.out}"
+  | _, _, _ => "bad-request"
 
 end Preflate.Driver
